@@ -7,7 +7,17 @@ unset GOTOOLCHAIN GOSUMDB
 mkdir -p .work evidence replays
 fail=0
 # no Admitted / Axiom / ... anywhere in the development (each check re-scans its own closure and fails on a hit)
-if grep -rnE '\b(Admitted|admit|Axiom|Parameter|Conjecture|bypass_check)\b|Admit Obligations|Unset Guard Checking|Unset Positivity Checking|Unset Universe Checking' --include='*.v' coq | grep -v '(\*.*\*)' ; then
+if ! python3 - <<'PY'
+import re, glob, sys
+pat = re.compile(r"\b(Admitted|admit|Axiom|Axioms|Parameter|Parameters|Conjecture|Admit Obligations|bypass_check|Unset Guard Checking|Unset Positivity Checking|Unset Universe Checking|type-in-type)\b")
+bad = []
+for f in sorted(glob.glob("coq/*/*.v")):
+    txt = re.sub(r"\(\*.*?\*\)", "", open(f).read(), flags=re.S)   # comments may use the English word "admit"
+    bad += ["%s: %s" % (f, m.group(1)) for m in pat.finditer(txt)]
+print("\n".join(bad))
+sys.exit(1 if bad else 0)
+PY
+then
   echo "WARNING: forbidden construct in the Coq development" >&2; fail=1
 fi
 (cd coq && { echo "-Q . KV"; ls */*.v | LC_ALL=C sort; } > _CoqProject && coq_makefile -f _CoqProject -o Makefile >/dev/null && timeout 3000 make -k -j16 >.make.log 2>&1 || { echo "WARNING: Coq build incomplete" >&2; grep -B2 -A8 '^Error' .make.log | head -60; fail=1; })
